@@ -195,7 +195,8 @@ class ConvSim(WorldBase):
                 if g.random() < 0.6:
                     # the same path is loaded, rewritten and loaded again within one process
                     evs.append(["load", {"obj": key + "x", "path": path}])
-            evs.append(["dump", {"obj": key, "path": path, "count": True}])
+            evs.append(["dump", dict({"obj": key, "path": path, "count": True},
+                                     **({"os_short": g.randint(1, 40)} if g.random() < 0.2 else {}))])
             touched = g.random() < 0.4
             if touched:
                 evs.append(["touch", {"obj": key, "mode": g.choice(["insert", "leaf", "leaf"])}])
@@ -533,6 +534,20 @@ class ConvSim(WorldBase):
         if a.get("abort_at"):
             fs.arm(a["abort_at"], "abort" if a["abort_at"] % 4 else "enospc")
         err = None
+        short = {"fired": 0}
+        real_write = os.write
+        if a.get("os_short"):
+            # a second seam, one level down: a descriptor-level write may legally transfer fewer bytes than it was
+            # given (a nearly full disk, a file size limit); it says so in its return value. The unchanged dump does not
+            # write through descriptors itself, so this fault only ever meets code that has started to.
+            n_short = a["os_short"]
+
+            def short_write(fd, data):
+                if not short["fired"] and len(data) > n_short:
+                    short["fired"] = 1
+                    return real_write(fd, data[:n_short])
+                return real_write(fd, data)
+            os.write = short_write
         try:
             o.dump(path)
         except SimAbort:
@@ -541,6 +556,29 @@ class ConvSim(WorldBase):
             err = "OSError"
         except Exception as e:
             err = f"{type(e).__name__}: {str(e)[:80]}"
+        finally:
+            os.write = real_write
+        if short["fired"]:
+            self.fault("os:short-write")
+            if err is None:
+                # the call reported success: then the whole document is in the file
+                ref = path + ".ref"
+                o.dump(ref)
+                with open(ref, "rb") as f1, open(path, "rb") as f2:
+                    whole, got = f1.read(), f2.read()
+                os.remove(ref)
+                if got != whole:
+                    self.V("C13", "C13.yaml-roundtrip", "dump",
+                           f"a descriptor-level write transferred {n_short} bytes of {len(whole)} and said so; dump() "
+                           f"returned normally with a file of {len(got)} bytes (a faithful dump has {len(whole)})")
+            else:
+                # the call failed and said so: allowed. The program dumps again once the disk has room.
+                self.probe("dump_failed_on_short_write")
+                err = None
+                try:
+                    o.dump(path)
+                except Exception as e:
+                    err = f"{type(e).__name__}: {str(e)[:80]}"
         fired = list(fs.fired)
         fs.fired = []
         fs.disarm()
